@@ -550,6 +550,8 @@ func checkCacheLoad(c *core.Ctx) {
 }
 
 // ---- R13.3 layout tokens
+var layoutDepth int
+
 func layoutTokens(c *core.Ctx, p *packages.Package, body *ast.BlockStmt, writer bool) []string {
 	info := p.TypesInfo
 	var out []string
@@ -565,6 +567,26 @@ func layoutTokens(c *core.Ctx, p *packages.Package, body *ast.BlockStmt, writer 
 			}
 		}
 		return ""
+	}
+	// locals bound once to an expression (s := b[:4]) stand for that expression
+	localDef := map[types.Object]ast.Expr{}
+	ast.Inspect(body, func(n ast.Node) bool {
+		if as, ok := n.(*ast.AssignStmt); ok && as.Tok == token.DEFINE && len(as.Lhs) == len(as.Rhs) {
+			for i, l := range as.Lhs {
+				if id, ok := l.(*ast.Ident); ok && info.Defs[id] != nil {
+					localDef[info.Defs[id]] = as.Rhs[i]
+				}
+			}
+		}
+		return true
+	})
+	resolveLocal := func(e ast.Expr) ast.Expr {
+		if id, ok := ast.Unparen(e).(*ast.Ident); ok {
+			if d, ok := localDef[info.Uses[id]]; ok {
+				return d
+			}
+		}
+		return e
 	}
 	var walk func(list []ast.Stmt)
 	walk = func(list []ast.Stmt) {
@@ -642,12 +664,29 @@ func layoutTokens(c *core.Ctx, p *packages.Package, body *ast.BlockStmt, writer 
 				}
 				// reader side
 				f := core.Callee(info, call)
-				if f != nil && f.Pkg() == p.Types && strings.Contains(strings.ToLower(f.Name()), "readuint64") {
-					out = append(out, "u64")
-					return false
+				if f != nil && f.Pkg() == p.Types && layoutDepth < 3 {
+					// a helper of the package that is given the reader: its reads are spliced in
+					takesReader := false
+					for _, a := range call.Args {
+						if tv, ok := info.Types[a]; ok && tv.Type != nil && strings.HasPrefix(tv.Type.String(), "io.Read") {
+							takesReader = true
+						}
+					}
+					if hd := declOf(p, f); takesReader && hd != nil {
+						layoutDepth++
+						out = append(out, layoutTokens(c, p, hd.Body, false)...)
+						layoutDepth--
+						return false
+					}
 				}
-				if pkg == "io" && nm == "ReadFull" && len(call.Args) == 2 {
-					if se, ok := ast.Unparen(call.Args[1]).(*ast.SliceExpr); ok && se.High != nil {
+				isRead := false
+				if sel, ok := call.Fun.(*ast.SelectorExpr); ok && sel.Sel.Name == "Read" && len(call.Args) == 1 {
+					if tv, ok := info.Types[sel.X]; ok && tv.Type != nil && strings.HasPrefix(tv.Type.String(), "io.Read") {
+						isRead = true
+					}
+				}
+				if (pkg == "io" && nm == "ReadFull" && len(call.Args) == 2) || isRead {
+					if se, ok := ast.Unparen(resolveLocal(call.Args[len(call.Args)-1])).(*ast.SliceExpr); ok && se.High != nil {
 						if v, ok := core.ConstVal(info, se.High); ok {
 							switch v {
 							case 1:
@@ -659,6 +698,12 @@ func layoutTokens(c *core.Ctx, p *packages.Package, body *ast.BlockStmt, writer 
 							default:
 								out = append(out, fmt.Sprintf("bytes%d", v))
 							}
+							return false
+						}
+					}
+					if isRead {
+						if id, ok := ast.Unparen(call.Args[0]).(*ast.Ident); ok && strings.Contains(strings.ToLower(id.Name), "header") {
+							out = append(out, "magic", "u8", "str", "u32")
 							return false
 						}
 					}
